@@ -344,5 +344,26 @@ def run(ctx: core.Ctx) -> int:
                        construct="congruence form (C++)", msg=f"the generated C++ prediction {form!r} is not a sum of congruences X.A.X^T")
     else:
         ctx.error(f"{tpl}: generated process_model body not found in the witness")
+    # the generated update: the same accepted shapes as UPD-SHAPE on the Python side; every Jacobian in it is the one evaluated at the prior state
+    # (cppforms names a Jacobian evaluated elsewhere as a different atom, so a posterior mixing two linearisation points matches no accepted shape:
+    # P - K.H'.P is not symmetric)
+    tpls = "py/formak/templates/sensor_model.hpp"
+    nupc = 0
+    for targ, sev, _sp in gf.get("sensor", [])[:1]:
+        for p_ in sev.problems:
+            ctx.error(f"{tpls} [{v.tag}, {targ}]: {p_}")
+        late = [e for e in sev.events if e["kind"] == "return" and "removeInnovation" not in e["guard"] and isinstance(e["value"], dict)]
+        for e in late:
+            form = e["value"].get("covariance")
+            nupc += 1
+            if not isinstance(form, MatForm):
+                ctx.error(f"{tpls} [{v.tag}, {targ}]: the generated posterior covariance has no derivable normal form")
+                continue
+            ctx.oblige("UPD-SHAPE", f"{tpls} [{v.tag}, {targ}]", f"C++ posterior covariance = {form!r}", any(form == a for a in accepted), file=tpls,
+                       func="sensor_model", construct="posterior covariance form (C++)",
+                       msg=f"the generated C++ posterior covariance {form!r} is none of P - K.H.P, (I - K.H).P, Joseph form with one Jacobian H "
+                           f"evaluated at the prior state")
+    if not nupc:
+        ctx.error(f"{tpls}: generated sensor_model update return not found in the witness")
     return core.finish(ctx, explanation="dataflow queries on the validity gate + E3 congruence form of the prediction covariance "
                                         "(structural, necessary clauses only)", **META)
